@@ -31,15 +31,17 @@ order, the post-filter per-file counts, for every loaded subsample the contiguou
 `offsets (offOf X) counts` (without their last element) and the counts, a table holding every halo's own
 particles in row order with all of A before all of B, written by the write list `(k, table[k])`, `k = 0 … N-1`,
 in increasing order. -/
-theorem load_spec (o : Opts) (slabs : List (Slab α)) (h : wf o slabs = true) :
+theorem load_spec (o : Opts) (slabs : List (Slab α)) (h : wfE o slabs) :
     ∃ mks kept, masksFor o.masks slabs.length = .ok mks ∧ readAll o.cleaned slabs mks = .ok kept ∧
       loadW o slabs = .ok (specRes o slabs kept, specW o slabs kept) := by
+  have h := (wf_iff o slabs).mpr h
   obtain ⟨mks, kept, h1, h2, _, h4⟩ := loadW_spec o slabs h
   exact ⟨mks, kept, h1, h2, h4⟩
 
-theorem load_eq (o : Opts) (slabs : List (Slab α)) (h : wf o slabs = true) :
+theorem load_eq (o : Opts) (slabs : List (Slab α)) (h : wfE o slabs) :
     ∃ mks kept, masksFor o.masks slabs.length = .ok mks ∧ readAll o.cleaned slabs mks = .ok kept ∧
       keptWF o slabs kept ∧ load o slabs = .ok (specRes o slabs kept) := by
+  have h := (wf_iff o slabs).mpr h
   obtain ⟨mks, kept, h1, h2, h3, h4⟩ := loadW_spec o slabs h
   exact ⟨mks, kept, h1, h2, h3, by unfold load; rw [h4]⟩
 
@@ -136,7 +138,7 @@ theorem allParts_split (o : Opts) (X : Sub) (hX : X ∈ loadList o) (slabs : Lis
 and every loaded subsample `X`, the slice `table[start_X r : start_X r + n_X r]` of the returned table is
 exactly that halo's own particles: `part_X(s)[raw range]` (nothing if the halo was cleaned away) followed by
 `clean_X(s)[merge range]`; and `n_X r` is their number. -/
-theorem slices_correct (o : Opts) (slabs : List (Slab α)) (h : wf o slabs = true) :
+theorem slices_correct (o : Opts) (slabs : List (Slab α)) (h : wfE o slabs) :
     ∃ mks kept res, masksFor o.masks slabs.length = .ok mks ∧ readAll o.cleaned slabs mks = .ok kept ∧
       load o slabs = .ok res ∧ res.rows = (owners slabs kept).map (·.2) ∧
       ∀ X ∈ loadList o, ∃ starts ns, idxOf X res.idx = some (starts, ns) ∧
@@ -145,7 +147,8 @@ theorem slices_correct (o : Opts) (slabs : List (Slab α)) (h : wf o slabs = tru
           (owners slabs kept)[r]? = some (s, row) → starts[r]? = some st → ns[r]? = some n →
           n = ownCnt X row ∧
           pySlice res.sub st (st + n) = (ownParts X (s.part X) (s.cleanPart X) row).map some := by
-  obtain ⟨mks, kept, h1, h2, hk, h4⟩ := load_eq o slabs h
+  have h := (wf_iff o slabs).mpr h
+  obtain ⟨mks, kept, h1, h2, hk, h4⟩ := load_eq o slabs ((wf_iff o slabs).mp h)
   refine ⟨mks, kept, _, h1, h2, h4, (owners_rows slabs kept hk.1).symm, ?_⟩
   intro X hX
   refine ⟨(offsets (offOf o kept X) (cntsOf X kept)).dropLast, cntsOf X kept, ?_, ?_, ?_, ?_⟩
@@ -207,13 +210,14 @@ def blockStart (o : Opts) (res : Result α) : Sub → Nat
 not loaded), `start_X (r+1) = start_X r + n_X r` (stated as: the starts are the running sums `offsets` of the
 counts, minus the final total), the counts sum over all loaded subsamples to the table length, no cell is left
 unwritten, and the write list touches cell `k` exactly once, in the order `k = 0, 1, …, N-1`. -/
-theorem tiling (o : Opts) (slabs : List (Slab α)) (h : wf o slabs = true) :
+theorem tiling (o : Opts) (slabs : List (Slab α)) (h : wfE o slabs) :
     ∃ res ws, loadW o slabs = .ok (res, ws) ∧
       (∀ X ∈ loadList o, ∃ starts ns, idxOf X res.idx = some (starts, ns) ∧
         starts ++ [blockStart o res X + total ns] = offsets (blockStart o res X) ns) ∧
       total ((loadList o).map (fun X => total (blockCounts res X))) = res.sub.length ∧
       ws.map (·.1) = List.range res.sub.length ∧
       res.sub = (ws.map (·.2)).map some := by
+  have h := (wf_iff o slabs).mpr h
   obtain ⟨mks, kept, h1, h2, hk, h4⟩ := loadW_spec o slabs h
   refine ⟨_, _, h4, ?_, ?_, ?_, ?_⟩
   · intro X hX
@@ -322,10 +326,11 @@ theorem wf_mapParts {β} (d : α → β) (o : Opts) (slabs : List (Slab α)) :
 /-- **decode_commutes.**  For any per-word decoder `d` (the C04 decoders, any subset of output columns being a
 tuple-valued `d`): loading the decoded particle files gives the decoded table — same rows, same index
 columns, and every table cell is the decoding of the cell of the raw-word table. -/
-theorem decode_commutes {β} (d : α → β) (o : Opts) (slabs : List (Slab α)) (h : wf o slabs = true) :
+theorem decode_commutes {β} (d : α → β) (o : Opts) (slabs : List (Slab α)) (h : wfE o slabs) :
     ∃ res, load o slabs = .ok res ∧ load o (slabs.map (Slab.mapParts d)) = .ok (res.mapSub d) := by
-  obtain ⟨mks, kept, h1, h2, hk, h4⟩ := load_eq o slabs h
-  obtain ⟨mks', kept', h1', h2', hk', h4'⟩ := load_eq o (slabs.map (Slab.mapParts d)) (by rw [wf_mapParts]; exact h)
+  have h := (wf_iff o slabs).mpr h
+  obtain ⟨mks, kept, h1, h2, hk, h4⟩ := load_eq o slabs ((wf_iff _ _).mp h)
+  obtain ⟨mks', kept', h1', h2', hk', h4'⟩ := load_eq o (slabs.map (Slab.mapParts d)) ((wf_iff _ _).mp (by rw [wf_mapParts]; exact h))
   simp only [List.length_map] at h1'
   rw [h1] at h1'
   cases h1'
@@ -365,11 +370,62 @@ theorem lc_slices (halos : List (Nat × Nat)) (parts : List α) (mask : Option (
 
 /-- **zipper_inbounds.**  A well-formed input never makes the reader index outside an array (nor trip a
 length check): the load returns. -/
-theorem zipper_inbounds (o : Opts) (slabs : List (Slab α)) (h : wf o slabs = true) :
+theorem zipper_inbounds (o : Opts) (slabs : List (Slab α)) (h : wfE o slabs) :
     load o slabs ≠ .error .oob ∧ load o slabs ≠ .error .badLength := by
-  obtain ⟨_, kept, _, _, _, h4⟩ := load_eq o slabs h
+  have h := (wf_iff o slabs).mpr h
+  obtain ⟨_, kept, _, _, _, h4⟩ := load_eq o slabs ((wf_iff o slabs).mp h)
   rw [h4]
   exact ⟨fun hh => (by cases hh), fun hh => (by cases hh)⟩
+
+/-! ### the loops as coded, the preallocated table, the uint32 sum -/
+
+/-- **zipper_index_rule.**  The executable model reads `slab_read_offsets[i]`, `slab_write_offsets[i]`,
+`slab_write_offsets[i+1]`, the superslab `i`, `halo_file_offsets[i]`, `halo_file_offsets[i+1]` through the
+Python index rule inside `for i in range(N)` loops (`zipRowsI`, `zipSlabsI`, `zipAllI`).  For ALL inputs,
+well-formed or not, these equal the structural recursions the proofs are written over — same writes, same
+fault at the same iteration — so `zipper_inbounds` and the C11 corollary are about the index arithmetic as
+coded. -/
+theorem zipper_index_rule (rawCol : Bool) (nSub : Nat) (X : Sub) :
+    (∀ (part cl : List α) (rows : List Row) (swo : List Nat),
+      zipRowsI rawCol nSub X part cl rows swo = zipRows rawCol nSub X part cl rows swo) ∧
+    (∀ (tbl : List Row) (new : List Nat) (slabs : List (Slab α)) (hfo : List Nat),
+      zipSlabsI rawCol nSub X tbl new slabs hfo = zipSlabs rawCol nSub X tbl new slabs hfo) ∧
+    (∀ (tbl : List Row) (slabs : List (Slab α)) (hfo : List Nat) (news : List (Sub × List Nat)),
+      zipAllI rawCol nSub tbl slabs hfo news = zipAll rawCol nSub tbl slabs hfo news) :=
+  ⟨fun part cl rows swo => zipRowsI_eq rawCol nSub X part cl rows swo,
+   fun tbl new slabs hfo => zipSlabsI_eq rawCol nSub X tbl new slabs hfo,
+   fun tbl slabs hfo news => zipAllI_eq rawCol nSub tbl slabs hfo news⟩
+
+/-- **table_compaction.**  `_read_halo_info` on a well-formed request, as writes into the preallocated table of
+`N_halos = Σ len(raw_i)` rows: all files open and assert (`allRowsOf`), the per-file loop (`compact`: unpack
+file `i` into the window at `N_written`, `halos[:nmask] = halos[mask]`, `N_written += nmask`) succeeds, every
+write lands inside the allocation, the final `N_written` is the number of kept rows, after the writes the
+allocation is `kept rows in file order ++ leftover`, and the table handed on — the first `N_written` cells,
+nothing past them — is exactly the kept rows in file order with `N_halo_per_file` their per-file numbers. -/
+theorem table_compaction (o : Opts) (slabs : List (Slab α)) (h : wfE o slabs) :
+    ∃ mks kept rowss ws leftover, masksFor o.masks slabs.length = .ok mks ∧
+      readAll o.cleaned slabs mks = .ok kept ∧ allRowsOf o.cleaned slabs = .ok rowss ∧
+      compact rowss mks 0 = .ok (ws, kept.flatten.length, kept.map List.length) ∧
+      (∀ w ∈ ws, w.1 < total (rowss.map List.length)) ∧
+      applyWrites (List.replicate (total (rowss.map List.length)) none) (ws.map (fun w => (w.1, some w.2))) =
+        kept.flatten.map some ++ leftover ∧
+      readTable o.cleaned slabs mks = .ok (kept.flatten, kept.map List.length) ∧
+      kept.flatten = (owners slabs kept).map (·.2) := by
+  obtain ⟨mks, kept, h1, h2, hk⟩ := wf_kept o slabs ((wf_iff o slabs).mpr h)
+  obtain ⟨rowss, hrows, hrel⟩ := readAll_rel o.cleaned slabs mks kept h2
+  obtain ⟨ws, free', hc, hidx, happ⟩ := compact_spec rowss mks kept hrel []
+    (List.replicate (total (rowss.map List.length)) none) (by simp)
+  simp only [List.length_nil, Nat.zero_add, List.nil_append] at hc hidx happ
+  exact ⟨mks, kept, rowss, ws, free', h1, h2, hrows, hc, hidx, happ,
+    readTable_eq o.cleaned slabs mks kept h2, (owners_rows slabs kept hk.1).symm⟩
+
+/-- **uint32_sum_wraps.**  The hypothesis "fewer than 2^32 particles per halo and subsample" in `rowOK` is
+needed: `npoutX + npoutX_merge` is a sum of two `uint32` columns, so for a halo with 2^32 or more particles the
+count the reader feeds to `cumsum` (`cnt32`, after the zeroing step) is NOT the number of its particles. -/
+theorem uint32_sum_wraps (X : Sub) (r : Row) (h : 2 ^ 32 ≤ ownCnt X r) :
+    cnt32 X (zeroCleaned X r) ≠ ownCnt X r := by
+  have : cnt32 X (zeroCleaned X r) < 2 ^ 32 := Nat.mod_lt _ (by decide)
+  omega
 
 /-! ### non-vacuity: a concrete catalog — two superslabs, an L0 gap before every range, a zero-particle halo,
 a cleaned-away halo with non-zero raw counts, merged ranges, a mask dropping a row -/
@@ -386,6 +442,8 @@ def exOpts : Opts :=
   { cleaned := true, loadA := true, loadB := true, rawCol := true, masks := some [[true, true, false], [true]] }
 
 example : wf exOpts exSlabs = true := by decide
+example : wfE exOpts exSlabs := (wf_iff _ _).mp (by decide)
+example : wfE { exOpts with cleaned := false, masks := none } exSlabs := (wf_iff _ _).mp (by decide)
 example : wf { exOpts with cleaned := false, masks := none } exSlabs = true := by decide
 example : wf { exOpts with loadA := false } ([] : List (Slab Nat)) = false := by decide
 example : (load exOpts exSlabs).toOption.map (·.sub) =
@@ -396,7 +454,10 @@ example : (load exOpts exSlabs).toOption.map (·.idx) =
 def exBad : List (Slab Nat) :=
   [ { halos := [⟨5, 3, 0, 0, 1⟩], clean := [⟨0, 0, 0, 0, 4⟩], partA := [1, 2, 3, 4, 5, 6],
       partB := [], cleanA := [], cleanB := [] } ]
-example : wf { exOpts with masks := none } exBad = false := by decide
+example : ¬ wfE { exOpts with masks := none } exBad := fun h => absurd ((wf_iff _ _).mpr h) (by decide)
+-- a halo whose two uint32 counts add up to 2^32: the reader's sum wraps to 0, the specification says 2^32
+example : cnt32 .A (⟨0, 4294967295, 0, 0, 9⟩, some ⟨0, 1, 0, 0, 9⟩) = 0 ∧
+    ownCnt .A (⟨0, 4294967295, 0, 0, 9⟩, some ⟨0, 1, 0, 0, 9⟩) = 4294967296 := by decide
 example : ∃ res, loadLc [(0, 2), (3, 1)] [5, 6, 7, 8] (some [true, false]) = .ok res ∧ res.rows = [(0, 2)] :=
   ⟨_, rfl, rfl⟩
 
